@@ -88,23 +88,85 @@ Theorem C13_eval_cadence : forall evs b f best evals d ob af,
 Proof. exact eval_cadence. Qed.
 Print Assumptions C13_eval_cadence.
 
-(* its children: on_new_best is stepped iff an evaluation improved the best mean; after_eval iff an evaluation
-   took place and on_new_best did not return false; nothing otherwise *)
-Theorem C13_eval_children_on_trigger_only : forall nt b f best evals d ob af,
+(* its children: on_new_best is stepped iff an evaluation improved the best mean (strictly); after_eval iff an evaluation
+   took place and on_new_best did not return false; nothing otherwise.  The children read parent.best_mean_reward as
+   updated by this very evaluation: [dispatchp (Some mean)] / [dispatchp best]. *)
+Theorem C13_eval_children_on_trigger_only : forall pb nt b f best evals d ob af,
   let c' := b_calls b + 1 in
-  let r := dispatch (Step nt) (EvalC b f best evals d ob af) in
+  let m := hd 0 evals in
+  let r := dispatchp pb (Step nt) (EvalC b f best evals d ob af) in
   (eval_fires c' f = false ->
      r = (EvalC (base_step nt b) f best evals d ob af, true)) /\
-  (eval_fires c' f = true -> better (hd 0 evals) best = false ->
-     r = (EvalC (base_step nt b) f best (tl evals) (d ++ [(c', nt)]) ob (fst (dispatch (Step nt) af)),
-          snd (dispatch (Step nt) af))) /\
-  (eval_fires c' f = true -> better (hd 0 evals) best = true ->
-     r = (EvalC (base_step nt b) f (Some (hd 0 evals)) (tl evals) (d ++ [(c', nt)])
-            (fst (dispatch (Step nt) ob))
-            (if snd (dispatch (Step nt) ob) then fst (dispatch (Step nt) af) else af),
-          if snd (dispatch (Step nt) ob) then snd (dispatch (Step nt) af) else false)).
+  (eval_fires c' f = true -> better m best = false ->
+     r = (EvalC (base_step nt b) f best (tl evals) (d ++ [(c', nt)]) ob (fst (dispatchp best (Step nt) af)),
+          snd (dispatchp best (Step nt) af))) /\
+  (eval_fires c' f = true -> better m best = true ->
+     r = (EvalC (base_step nt b) f (Some m) (tl evals) (d ++ [(c', nt)])
+            (fst (dispatchp (Some m) (Step nt) ob))
+            (if snd (dispatchp (Some m) (Step nt) ob) then fst (dispatchp (Some m) (Step nt) af) else af),
+          if snd (dispatchp (Some m) (Step nt) ob) then snd (dispatchp (Some m) (Step nt) af) else false)).
 Proof. exact eval_children_on_trigger_only. Qed.
 Print Assumptions C13_eval_children_on_trigger_only.
+
+(* best_mean_reward: replaced only by a strictly larger evaluation mean (rule `>`), never decreases *)
+Theorem C13_eval_best_update : forall pb e b f best evals d ob af,
+  eval_best (fst (dispatchp pb e (EvalC b f best evals d ob af))) =
+  match e with
+  | Step nt => if eval_fires (b_calls b + 1) f && better (hd 0 evals) best then Some (hd 0 evals) else best
+  | _ => best
+  end.
+Proof. exact eval_best_update. Qed.
+Print Assumptions C13_eval_best_update.
+
+Theorem C13_eval_best_never_decreases : forall pb e b f best evals d ob af v,
+  best = Some v ->
+  exists v', eval_best (fst (dispatchp pb e (EvalC b f best evals d ob af))) = Some v' /\ v <= v'.
+Proof. exact eval_best_never_decreases. Qed.
+Print Assumptions C13_eval_best_never_decreases.
+
+(* StopTrainingOnRewardThreshold stops iff the parent's best mean has reached the threshold; as callback_on_new_best it
+   stops training exactly at the evaluation whose (new best) mean is >= threshold *)
+Theorem C13_reward_threshold_stops_iff : forall pb nt b thr,
+  snd (dispatchp pb (Step nt) (Thresh b thr)) = false <-> exists v, pb = Some v /\ thr <= v.
+Proof. exact thresh_stops_iff. Qed.
+Print Assumptions C13_reward_threshold_stops_iff.
+
+Theorem C13_eval_threshold_stops : forall pb nt b f best evals d thr bt af,
+  eval_fires (b_calls b + 1) f = true -> better (hd 0 evals) best = true ->
+  (snd (dispatchp pb (Step nt) (EvalC b f best evals d (Thresh bt thr) af)) = false <->
+   thr <= hd 0 evals \/ snd (dispatchp (Some (hd 0 evals)) (Step nt) af) = false).
+Proof. exact eval_threshold_stops. Qed.
+Print Assumptions C13_eval_threshold_stops.
+
+(* StopTrainingOnNoModelImprovement: after min_evals calls it counts consecutive calls without a larger parent best and
+   stops when the count exceeds max_no_improvement_evals *)
+Theorem C13_no_improvement_stops_iff : forall pb nt b mx me lb ni,
+  snd (dispatchp pb (Step nt) (NoImp b mx me lb ni)) = false <->
+  me < b_calls b + 1 /\ gt_opt pb lb = false /\ mx < ni + 1.
+Proof. exact noimp_stops_iff. Qed.
+Print Assumptions C13_no_improvement_stops_iff.
+
+Theorem C13_no_improvement_step : forall pb nt b mx me lb ni,
+  dispatchp pb (Step nt) (NoImp b mx me lb ni) =
+  let c' := b_calls b + 1 in
+  if me <? c' then
+    if gt_opt pb lb then (NoImp (base_step nt b) mx me pb 0, true)
+    else (NoImp (base_step nt b) mx me pb (ni + 1), negb (mx <? ni + 1))
+  else (NoImp (base_step nt b) mx me pb ni, true).
+Proof. exact noimp_step. Qed.
+Print Assumptions C13_no_improvement_step.
+
+(* ConvertCallback(function): the function is called once per step event delivered, with that step's counters and locals *)
+Theorem C13_function_callback_log : forall evs b stop log,
+  run evs (Conv b stop log) =
+  Conv (base_after b evs) stop (log ++ filter (fun x => e_kind x =? 2) (rec_entries b evs)).
+Proof. exact conv_run. Qed.
+Print Assumptions C13_function_callback_log.
+
+Theorem C13_function_callback_stops_iff : forall pb nt b stop log,
+  snd (dispatchp pb (Step nt) (Conv b stop log)) = false <-> b_calls b + 1 = stop.
+Proof. exact conv_stops_iff. Qed.
+Print Assumptions C13_function_callback_stops_iff.
 
 (* EveryNTimesteps fires iff num_timesteps - last_time_trigger >= n, for every history and child *)
 Theorem C13_everyN_cadence : forall evs b n last fired ch,
@@ -166,6 +228,13 @@ Proof.
     (conj (frag_eval_after_combine acc r) (conj (frag_everyn_cond nt last n) (conj (frag_everyn_update nt) frag_everyn_init))))))))).
 Qed.
 Print Assumptions C13_fragments_callbacks.
+
+Theorem C13_fragments_thresholds : forall nt b mx me v lbv ni thr,
+  rthresh_continue v thr = lt_thr (Some v) thr /\
+  (let '(cont, ni', lb') := noimp_block (b_calls b + 1) me v lbv ni mx in
+   dispatchp (Some v) (Step nt) (NoImp b mx me (Some lbv) ni) = (NoImp (base_step nt b) mx me (Some lb') ni', cont)).
+Proof. exact (fun nt b mx me v lbv ni thr => conj (frag_rthresh v thr) (frag_noimp nt b mx me v lbv ni)). Qed.
+Print Assumptions C13_fragments_thresholds.
 
 Theorem C13_fragments_maxep : forall m ne neps nd,
   maxep_total m ne = m * ne /\ maxep_count neps nd = neps + nd /\ maxep_continue neps (m * ne) = (neps <? m * ne).
